@@ -235,6 +235,8 @@ theorem fs_saveRoles (a k : Bytes) (r : List Bytes) : FaultSim (saveRoles a k r)
 macro_rules | `(tactic| fs_spec) => `(tactic| exact fs_saveRoles _ _ _)
 theorem fs_checkAllowed (a t r : Bytes) : FaultSim (checkAllowed a t r) := by unfold checkAllowed; fs
 macro_rules | `(tactic| fs_spec) => `(tactic| exact fs_checkAllowed _ _ _)
+theorem fs_checkAllowedIf (b : Bool) (a t r : Bytes) : FaultSim (checkAllowedIf b a t r) := by unfold checkAllowedIf; fs
+macro_rules | `(tactic| fs_spec) => `(tactic| exact fs_checkAllowedIf _ _ _ _)
 theorem fs_getLatestNonce (a t : Bytes) : FaultSim (getLatestNonce a t) := by unfold getLatestNonce; fs
 macro_rules | `(tactic| fs_spec) => `(tactic| exact fs_getLatestNonce _ _)
 theorem fs_saveLatestNonce (a t : Bytes) (n : Nat) : FaultSim (saveLatestNonce a t n) := by unfold saveLatestNonce; fs
